@@ -1879,6 +1879,38 @@ func ruleFamily(ctx *Ctx) error {
 			run(randomStruct(ctx.Rng), "random-struct")
 		}
 	}
+	// table-index sweep (C13, C07): in rules of every field class the value word, the field code and the
+	// operator word of the first field are replaced by every small number (codes just past the end of a built-in
+	// table are not boundary values of anything else)
+	if ctx.Prop == "C13" || ctx.Prop == "C07" {
+		bases := []string{"-a always,exit -C auid=uid", "-a always,exit -F perm=wa", "-a always,exit -F filetype=file", "-a always,user -F msgtype=USER_LOGIN",
+			"-a always,exit -F arch=b64 -S open", "-a always,exit -F exit=-2", "-a always,exit -F uid=0", "-a always,exit -F key=k", "-a always,exit -F a0=1"}
+		for _, line := range bases {
+			r, err := flags.Parse(line)
+			if err != nil {
+				continue
+			}
+			wf, err := rule.Build(r)
+			if err != nil || len(wf) < 1040 {
+				continue
+			}
+			for v := uint32(0); v <= 300; v++ {
+				for _, word := range []int{131, 67} { // value word / field code of field 0
+					if word == 67 && ctx.Prop != "C13" {
+						continue
+					}
+					b := append([]byte{}, wf...)
+					binary.LittleEndian.PutUint32(b[4*word:], v)
+					run(RCaseR{Kind: "bytes", Hex: hex.EncodeToString(b), Note: "table-index"}, "table-index-sweep")
+				}
+			}
+			for _, op := range []uint32{0, 0x08000000, 0x10000000, 0x18000000, 0x20000000, 0x28000000, 0x30000000, 0x38000000, 0x40000000, 0x48000000, 0x50000000, 0x58000000, 0x60000000, 0x68000000, 0x70000000, 0x78000000, 0x80000000} {
+				b := append([]byte{}, wf...)
+				binary.LittleEndian.PutUint32(b[4*195:], op)
+				run(RCaseR{Kind: "bytes", Hex: hex.EncodeToString(b), Note: "table-index"}, "table-index-sweep")
+			}
+		}
+	}
 	// C13 thorough: every header word of a few rules replaced by every boundary value
 	if ctx.Prop == "C13" && len(wires) > 0 {
 		k := ctx.N(2, 12)
